@@ -152,7 +152,9 @@ class SDBuilder:
             L = {"t": "catl", "v": v, "K": K, "n": n,
                  "p": pk("plain")}
         elif t == "bin":
-            L = {"t": "bin", "v": v, "K": K, "n": n - 1, "p": pk("sigmoid")}
+            # bounded pre-activation: 1 - sigmoid(t) is ill-conditioned in t for large t, and torch /
+            # numpy sigmoids may differ by one ulp
+            L = {"t": "bin", "v": v, "K": K, "n": n - 1, "p": pk("sigmoid", role="bounded")}
         elif t == "binl":
             L = {"t": "binl", "v": v, "K": K, "n": n - 1, "p": pk("plain")}
         elif t == "emb":
